@@ -75,6 +75,11 @@ fn extend(s: &G) -> Vec<G> {
     un(&|s| format!("Box<dyn Iterator<Item = {s}>>"), 0);
     un(&|s| format!("Box<dyn Tr<{s}> + Send>"), 0);
     un(&|s| format!("dyn Tr<{s}>"), 0);
+    // the parameter in a bound that is not the first one
+    un(&|s| format!("Box<dyn Send + Tr<{s}>>"), 0);
+    un(&|s| format!("&(dyn 'static + Sync + AsRef<[{s}]>)"), 0);
+    un(&|s| format!("impl Send + Tr<{s}>"), 0);
+    un(&|s| format!("Box<dyn Tr<u8> + Tr2<u8, Out = {s}>>"), 0);
     un(&|s| format!("impl Tr<{s}>"), 0);
     un(&|s| format!("Foo<Item: Tr<{s}>>"), 0);
     un(&|s| format!("Foo<3, {s}>"), 0);
@@ -89,6 +94,8 @@ fn extend(s: &G) -> Vec<G> {
         both(&|s, o| format!("({s}, {o})"), &mut out);
         both(&|s, o| format!("({o}, {s}, {o})"), &mut out);
         both(&|s, o| format!("Box<dyn Fn({s}) -> {o}>"), &mut out);
+        both(&|s, o| format!("Box<dyn Tr<{s}> + Tr2<{o}>>"), &mut out);
+        both(&|s, o| format!("impl Tr<{s}> + Tr2<{o}>"), &mut out);
         both(&|s, o| format!("impl FnOnce({o}) -> {s}"), &mut out);
         both(&|s, o| format!("fn({s}, {o}) -> {o}"), &mut out);
         both(&|s, o| format!("fn({o}) -> {s}"), &mut out);
@@ -425,6 +432,16 @@ fn derive_half_one(tys: &[G], i: usize, thorough: bool, t: &mut Tally) {
                             check_impl(&src_el, used, d, t);
                         }
                     }
+                }
+                // a parsed field stays parsed whatever other options it carries: the bound on the
+                // parameters it uses is still emitted (its type's `from_none` / conversion is used)
+                for opt in ["with = f", "default", "default = f", "multiple", "map = f", "and_then = f", "rename = \"z\"", "skip = false", "with = f, default"] {
+                    let body = format!("{{ #[darling({opt})] a: {}, #[darling(skip)] b: {}, #[darling(skip)] c: {} }}", a.text, b.text, c.text);
+                    check_impl(&format!("struct R{head}{wh} {body}"), a.bi, 0, t);
+                    let d = 1 + (i + hi) % 5;
+                    check_impl(&format!("#[darling(attributes(a))] struct R{head}{wh} {body}"), a.bi, d, t);
+                    let src = format!("enum R{head}{wh} {{ #[darling(skip)] A({}), B {{ #[darling({opt})] x: {}, #[darling(skip)] y: {} }}, C }}", b.text, a.text, c.text);
+                    check_impl(&src, a.bi, 0, t);
                 }
                 // enum (FromMeta): skipped variants and skipped fields inside variants
                 for skip in 0..4u8 {
